@@ -137,6 +137,15 @@ def reader_attr(it, obj, name, node):
             if itp.ctx.choose(2, 'read-outcome') == 1:
                 raise PyRaise(VExc('OSError', [], {'errno': VInt(itp.ctx.fresh_const('errno', z3.IntSort()))}, line=n.lineno))
             p = pos(itp)
+            if a and not isinstance(a[0], VNone):
+                # read(n): at most n bytes; nothing only at end of file (or for n == 0); n < 0 means everything
+                size = itp._num(itp.ctx.force(a[0]))
+                ln = itp.ctx.fresh_const('rchunk', z3.IntSort())
+                rest = z3.Length(data) - p
+                itp.ctx.assume(z3.If(size < 0, ln == rest,
+                                     z3.And(ln >= 0, ln <= size, ln <= rest, (ln == 0) == z3.Or(rest == 0, size == 0))))
+                itp.ctx.write_field(obj.t, '_pos', VInt(p + ln))
+                return VBytes(z3.SubString(data, p, ln))
             itp.ctx.write_field(obj.t, '_pos', VInt(z3.Length(data)))
             return VBytes(z3.SubString(data, p, z3.Length(data) - p))      # all the remaining bytes
         f = VFunc('reader.read', read)
@@ -207,13 +216,12 @@ def _(c):
 def _hash_file_contract():
     c = REGISTRY[('gemato/hash.py', 'hash_file')]
     del REGISTRY[('gemato/hash.py', 'hash_file.body')]
-    # The streaming invariants below are written and loop 1 discharges, but z3 answers
-    # 'incomplete (theory array seq)' on the other loops (arrays of strings indexed by references
-    # obtained from a dict of sequences) and cvc5 cannot read the lambdas: the body contract is therefore
-    # NOT claimed -- hash_file stays a trusted contract at its call site and is covered by the bounded
-    # stand-in h_misc.py c17.  Set VERIF_HASH_FILE_BODY=1 to run the attempt.
+    # (history) An earlier version stated the invariants as equalities between lambda arrays; every solver answered
+    # "unknown (incomplete theory array seq)".  The clauses below are the same facts in quantified, lambda-free form
+    # ("for every name k in the set ...", with patterns on hasher_ref(k) / the dict cell) and discharge in seconds.
+    # VERIF_SKIP_HASH_FILE_BODY=1 leaves the body out (then hash_file is only the trusted call-site contract).
     import os as _os
-    c.trusted = not _os.environ.get('VERIF_HASH_FILE_BODY')
+    c.trusted = bool(_os.environ.get('VERIF_SKIP_HASH_FILE_BODY'))
     if c.trusted:
         return
     c.params(f=Obj('_Reader'), hash_names=SeqT(Str), _apparent_size=Int)
@@ -242,67 +250,77 @@ def _hash_file_contract():
 
     names = lambda s: s.hash_names
     data = lambda s: rd_data(s.f.ref)
-    FED0 = lambda s: z3.Const('heap0!_fed', z3.ArraySort(z3.IntSort(), SB))
+    k = z3.Const('k!h', SB)
 
     def NS(s, upto):
         return set_of(s, names(s), upto)
 
-    def dmap(s, upto):
-        k = z3.Const('k', SB)
-        return z3.Lambda([k], z3.If(z3.Select(NS(s, upto), k), OptRef.some(hasher_ref(k)), OptRef.none))
-
     def all_names(s):
         return NS(s, z3.Length(names(s)))
+
+    def fed_of(s, key):
+        return z3.Select(heapf(s, '_fed'), hasher_ref(key))
+
+    def table_is(s, ns):
+        """the dict holds, for exactly the names in ns, the hash object of that name"""
+        return z3.ForAll([k], z3.Select(_arr(s.cur.hashes), k) == z3.If(z3.Select(ns, k), OptRef.some(hasher_ref(k)), OptRef.none),
+                         patterns=[z3.Select(_arr(s.cur.hashes), k)])
+
+    def every_fed(s, ns, what):
+        """every hash object of a name in ns has been fed exactly what(k)"""
+        return z3.ForAll([k], z3.Implies(z3.Select(ns, k), fed_of(s, k) == what(k)), patterns=[hasher_ref(k)])
+
+    def one_object_per_name(s):
+        # A-hashlib (model of get_hash_by_name at this call site): the object made for a name is identified by it
+        return z3.ForAll([k], hasher_name(hasher_ref(k)) == k, patterns=[hasher_ref(k)])
 
     def keys_facts(s):
         """A-dictkeys for the sequence hashes.values()/items() iterates over: it enumerates exactly the
         keys of the dict (as a set equation) and the current key did not occur before"""
         ks = s.seq
-        return z3.And(set_of(s, ks, z3.Length(ks)) == all_names(s),
-                      z3.Not(z3.Select(set_of(s, ks, s.i), ks[s.i])))
+        return z3.Not(z3.Select(set_of(s, ks, s.i), ks[s.i]))
+
+    def keys_set(s):
+        return z3.And(set_of(s, s.seq, z3.Length(s.seq)) == all_names(s), one_object_per_name(s))
+
+    c.requires('A-hashlib: the hash object made for a name is identified by that name', one_object_per_name)
 
     # loop 1: for h in hash_names
     c.loop(1, header='for h in hash_names', vars={'hashes': DictT(Str, Obj('_Hasher'))}, havoc_fields=['_fed'],
            inv=[('one-fresh-hasher-per-name-so-far',
-                 lambda s: z3.And(_arr(s.cur.hashes) == dmap(s, s.i),
-                                  heapf(s, '_fed') == fed_map(s, NS(s, s.i), lambda r: z3.StringVal(''), FED0(s))))])
+                 lambda s: z3.And(table_is(s, NS(s, s.i)), every_fed(s, NS(s, s.i), lambda kk: z3.StringVal(''))))],
+           assume_each=lambda s: one_object_per_name(s))
     # loop 2: slurp branch, for h in hashes.values()
     c.loop(2, header='for h in hashes.values()', havoc_fields=['_fed'],
            inv=[('fed-block-to-the-first-j-hashers',
-                 lambda s: z3.And(
-                     s.cur.hashes == dmap(s, z3.Length(names(s))),
-                     heapf(s, '_fed') == fed_map(
-                         s, all_names(s), lambda r: z3.If(z3.Select(set_of(s, s.seq, s.i), hasher_name(r)), s.cur.block, z3.StringVal('')),
-                         FED0(s))))],
-           assume_each=keys_facts)
+                 lambda s: z3.And(table_is(s, all_names(s)),
+                                  every_fed(s, all_names(s),
+                                            lambda kk: z3.If(z3.Select(set_of(s, s.seq, s.i), kk), s.cur.block, z3.StringVal('')))))],
+           assume_each=keys_facts, assume_seq=keys_set)
     # loop 3: chunk branch, for block in iter(lambda: f.read1(N), b'')
     c.loop(3, header="for block in iter(lambda: f.read1(HASH_BUFFER_SIZE), b'')", vars={'h': None}, havoc_fields=['_fed', '_pos'],
            inv=[('every-hasher-holds-the-bytes-read-so-far',
-                 lambda s: z3.And(s.f._pos >= 0, s.f._pos <= z3.Length(data(s)),
-                                  s.cur.hashes == dmap(s, z3.Length(names(s))),
-                                  heapf(s, '_fed') == fed_map(s, all_names(s), lambda r: z3.SubString(data(s), 0, s.f._pos), FED0(s))))])
+                 lambda s: z3.And(s.f._pos >= 0, s.f._pos <= z3.Length(data(s)), table_is(s, all_names(s)),
+                                  every_fed(s, all_names(s), lambda kk: z3.SubString(data(s), 0, s.f._pos))))])
     # loop 4: inner loop of the chunk branch
     c.loop(4, header='for h in hashes.values()', havoc_fields=['_fed'],
            inv=[('fed-block-to-the-first-j-hashers',
                  lambda s: z3.And(
                      s.cur.block == z3.SubString(data(s), s.f._pos - z3.Length(s.cur.block), z3.Length(s.cur.block)),
                      s.f._pos - z3.Length(s.cur.block) >= 0, s.f._pos <= z3.Length(data(s)),
-                     s.cur.hashes == dmap(s, z3.Length(names(s))),
-                     heapf(s, '_fed') == fed_map(
-                         s, all_names(s),
-                         lambda r: z3.If(z3.Select(set_of(s, s.seq, s.i), hasher_name(r)),
-                                         z3.SubString(data(s), 0, s.f._pos),
-                                         z3.SubString(data(s), 0, s.f._pos - z3.Length(s.cur.block))),
-                         FED0(s))))],
-           assume_each=keys_facts)
+                     table_is(s, all_names(s)),
+                     every_fed(s, all_names(s),
+                               lambda kk: z3.If(z3.Select(set_of(s, s.seq, s.i), kk),
+                                                z3.SubString(data(s), 0, s.f._pos),
+                                                z3.SubString(data(s), 0, s.f._pos - z3.Length(s.cur.block))))))],
+           assume_each=keys_facts, assume_seq=keys_set)
 
     def result_is_whole_content(s):
-        k = z3.Const('k', SB)
         d = data(s)
-        want = z3.Lambda([k], z3.If(z3.Select(all_names(s), k),
-                                    z3.If(k == z3.StringVal('__size__'), OptU.some(U.vint(z3.Length(d))),
-                                          OptU.some(U.vstr(digest(k, d)))), OptU.none))
-        return s.result == want
+        want = z3.If(z3.Select(all_names(s), k),
+                     z3.If(k == z3.StringVal('__size__'), OptU.some(U.vint(z3.Length(d))), OptU.some(U.vstr(digest(k, d)))),
+                     OptU.none)
+        return z3.ForAll([k], z3.Select(s.result, k) == want)
     c.ensures('digests-and-size-of-the-whole-content-for-exactly-the-requested-names', result_is_whole_content, internal=True)
 
 
